@@ -38,6 +38,18 @@ mod verif_replay_x {
                             }
                         }
                     }
+                    // an anonymous-typed global element carries the members of its complexType child
+                    for node in &doc.nodes {
+                        if let RustType::Element(e) = &node.rust_type {
+                            if let crate::model::structures::element::ElementType::ComplexType(p) = &e.element_type {
+                                if e.xml_name == "T" && !shown {
+                                    let names: Vec<String> = p.fields.iter().map(|f| format!("{}{}", if f.is_attribute { "@" } else { "" }, f.xml_name)).collect();
+                                    println!("X|{id}|{}", names.join(","));
+                                    shown = true;
+                                }
+                            }
+                        }
+                    }
                     if !shown { println!("X|{id}|MISSING"); }
                 }
             }
@@ -105,6 +117,14 @@ def cases():
                         xml = HEAD + f'<xs:complexType name="T">{doc}{body}{attrs}</xs:complexType></xs:schema>'
                     out.append((f'c{k}', xml, ','.join(want)))
                     k += 1
+    # anonymous-typed global elements: <xs:element name="T"><xs:complexType> tree + attributes </xs:complexType></xs:element>
+    for ri, root in enumerate(roots[:150]):
+        for nattr in (0, 2):
+            names = []
+            body = _render(root, names)
+            attrs = ''.join(f'<xs:attribute name="a{i}" type="xs:string"/>' for i in range(nattr))
+            xml = HEAD + f'<xs:element name="T"><xs:complexType>{body}{attrs}</xs:complexType></xs:element></xs:schema>'
+            out.append((f'e{ri}x{nattr}', xml, ','.join(list(names) + [f'@a{i}' for i in range(nattr)])))
     # occurrence family: a member under 1..3 nested groups, every combination of group kind and occurrence attributes on each level and on the member;
     # expected wrapper from the property: Vec if the member or an enclosing group may repeat, else Option if the member or an enclosing group is optional
     # or the member is in a choice, else bare
@@ -149,7 +169,7 @@ def _search(repo):
     rc, outp = run_test_module(MODULE.replace('@CASES@', path), 'verif_replay_x::flatten', repo, host_file='zeep-lib/src/reader.rs', timeout=240)
     want = {cid: (xml, w) for cid, xml, w in cs}
     res = {'trees_read_by_real_code': 0, 'anomalies': [], 'n': 0}
-    seen = set(re.findall(r"X\|(\w\d+)\|", outp))
+    seen = set(re.findall(r"X\|(\w\w+)\|", outp))
     if rc == 124 or 'X|done|' not in outp:
         # the harness did not finish: the first tree without a result line is the one it hangs (or aborts) on
         for cid, xml, w in cs:
